@@ -4,7 +4,8 @@ model    : WorkflowFast.tla (repaired protocol) exhaustive for small W, S, C: Ju
            ownership, barrier, mutex, termination and worker exit under weak fairness; the as-is
            switches (single Read / no lock) must still violate FreshOnly (vacuity guard)
 channel S: stub runners + self-describing stream, free-running with random delays in Read and in the
-           runners, W = NumCPU in {1,2,3,16} (taskset), GOMAXPROCS varied, short-read policies,
+           runners, plus two gated schedule families (barrier: simultaneous publishes; straggler: the
+           first sample's worker finishes last); the stubs re-verify the buffer at the end of each round; W = NumCPU in {1,2,3,16} (taskset), GOMAXPROCS varied, short-read policies,
            slot- and count-sensitive plans; sequential variant on the same stream for the differential
 channel T: every execution validated by TraceWorkflow.tla
 real mode: PeriodDetectFast vs PeriodDetect with the real runners on seeded streams (matrix logged,
@@ -133,6 +134,12 @@ def run(tier):
                                   delay_us=rng.choice([0, 20, 200]) if few_reads else 0, round_delay_us=rng.choice([0, 50, 300]))
                     jid += 1
                     jf = wf.mkjob(jid, fn, tag="fast W=%d GOMAXPROCS=%d %s" % (w, gmp, pol), **common)
+                    # schedule families realised by gates inside the stub runners (WorkflowFast.tla explores all of them on the model):
+                    # barrier = workers publish simultaneously; straggler = the first sample's worker finishes last
+                    jf["gate"] = ["", "barrier", "straggler", "barrier"][rep % 4] if w > 1 else ""
+                    if jf["gate"]:
+                        jf["tag"] += " gate=" + jf["gate"]
+                        jf["roundDelayUs"] = 0
                     jid += 1
                     js = wf.mkjob(jid, wf.SEQ_OF[fn], tag="seq ref", **dict(common, delay_us=0, round_delay_us=0))
                     js["stream"] = jf["stream"]
